@@ -21,6 +21,9 @@ def gen_case(rng, hostile=False):
         out = bytes((byte[0] + i) % 256 for i in range(k))
         byte[0] = (byte[0] + k) % 256
         return out
+    def xdt():
+        # a peer ignoring the window may do so with stderr data too (only a client receives extended data)
+        return 1 if (direction == 's2c' and rng.random() < 0.5) else 0
     for _ in range(n):
         r = rng.random()
         if r < 0.28:
@@ -40,7 +43,7 @@ def gen_case(rng, hostile=False):
         elif r < 0.96 or not hostile:
             ops.append(('B',))
         else:
-            ops.append(('X', 0, data(rng.choice([1, window, window + 1, 2 * window]))))
+            ops.append(('X', xdt(), data(rng.choice([1, window, window + 1, 2 * window]))))
     if not hostile and rng.random() < 0.35:
         # closing scenario: reader paused with data buffered when EOF / CLOSE arrive, then resumes
         ops.append(('W', 0, data(rng.randint(1, window + 2))))
@@ -54,7 +57,7 @@ def gen_case(rng, hostile=False):
         ops += [rng.choice([('F',), ('B',), ('R', None)]) for _ in range(rng.randint(0, 4))]
     if hostile and not any(o[0] == 'X' for o in ops):
         k = rng.randint(0, len(ops))
-        ops[k:k] = [('P',)] + [('X', 0, data(rng.choice([1, window, window]))) for _ in range(rng.randint(1, 4))] + [('F',)] * 3
+        ops[k:k] = [('P',)] + [('X', xdt(), data(rng.choice([1, window, window]))) for _ in range(rng.randint(1, 4))] + [('F',)] * 3
     return window, pktsize, direction, ops
 
 
